@@ -34,6 +34,7 @@ import (
 	"reflect"
 	"sort"
 	"strings"
+	"sync"
 
 	"github.com/osteele/liquid/expressions"
 )
@@ -350,25 +351,39 @@ func renderOn(src string, bindings map[string]any) (text string, err error, pani
 	return t, nil, false
 }
 
+// bindingsFor realises the receiver and the arguments with spare capacity behind every slice (filled with a
+// sentinel) and remembers a deep snapshot (contents, lengths, capacities, spare region) for `unchanged`.
 func bindingsFor(recvName string, recv *V, args []*V) map[string]any {
-	b := map[string]any{recvName: recv.Realise()}
+	rz := &realiser{spare: 2}
+	b := map[string]any{recvName: rz.val(recv)}
 	for i, a := range args {
-		b[fmt.Sprintf("a%d", i)] = a.Realise()
+		b[fmt.Sprintf("a%d", i)] = rz.val(a)
 	}
 	return b
 }
 
-// unchanged: the bound values still equal an untouched second realisation
+// bindingsForChecked: bindingsFor, remembered for a later call of `unchanged`
+func bindingsForChecked(recvName string, recv *V, args []*V) map[string]any {
+	b := bindingsFor(recvName, recv, args)
+	boundSnapshots.Store(reflect.ValueOf(b).Pointer(), snapshot(b))
+	return b
+}
+
+var boundSnapshots sync.Map
+
+// unchanged: the bound values still equal an untouched second realisation, and nothing reachable from them
+// (the spare capacity of the caller's slices included) has been written
 func unchanged(recvName string, b map[string]any, recv *V, args []*V) bool {
 	fresh := bindingsFor(recvName, recv, args)
-	return reflect.DeepEqual(b, fresh)
+	before, ok := boundSnapshots.LoadAndDelete(reflect.ValueOf(b).Pointer())
+	return reflect.DeepEqual(b, fresh) && (!ok || before.(string) == snapshot(b))
 }
 
 // arrfCase runs one filter case (line kinds `filter` and `sortc`), evaluates the oracle, returns the result line.
 // base (optional): the result line of the []any representation of the same contents.
 func arrfCase(r *Run, line, name string, recv *V, args []*V, base *string) string {
 	// (1) the value
-	b := bindingsFor("x", recv, args)
+	b := bindingsForChecked("x", recv, args)
 	out, err, panicked := evalOn(filterExprSource(name, len(args)), b)
 	var res string
 	switch {
@@ -411,7 +426,7 @@ func arrfRenderCheck(r *Run, line, name string, recv *V, args []*V) {
 		expr += " | join: ','"
 	}
 	alone, err0, p0 := renderOn("{{ a | join: ',' }}", bindingsFor("a", recv, args))
-	b := bindingsFor("a", recv, args)
+	b := bindingsForChecked("a", recv, args)
 	both, err1, p1 := renderOn("{{ "+expr+" }}"+recSep+"{{ a | join: ',' }}", b)
 	if p0 || p1 {
 		r.Violate("C15", "panic", line, "engine render: "+firstLine(lastPanic))
@@ -1213,7 +1228,6 @@ func repName(v *V) string {
 	}
 	return string(v.Kind)
 }
-
 
 // ---- Go values outside the codec ----------------------------------------------------------------
 
